@@ -35,9 +35,12 @@ META = dict(
          "multiprocessing | renamed top-level process, history of <= 40 ticks (7 % with a burst of 2-6 reload requests in one "
          "tick); per tick: events in the sleep, "
          "in the k-th empty() call, before the j-th is_alive() call of start()); events: worker death, SIGHUP, SIGINT, SIGTERM, "
-         "file change. Non-trivial iff some tick carries >= 2 events or a death is followed by its reload in a later tick; "
+         "file change; 9 % of the histories also script events INSIDE prepare_workers (worker exits at startup - also every "
+         "worker -, signals, file changes, inside Process.start() / the poll / the Event.wait of a startup wait) and 7 % inside "
+         "the startup window of a replacement; 4 % of the deaths are polled at once (DieS). Non-trivial iff some tick carries >= 2 events or a death is followed by its reload in a later tick; "
          "distinct by the whole case. Thorough: exhaustive sleep-event histories (workers 1,2: depth 4; 3: depth 3; "
-         "max_fails in {-1,0,1,2,3}), single mid-tick injections (depth 2,2,1) and 50000 random long histories.",
+         "max_fails in {-1,0,1,2,3}), single mid-tick injections (depth 2,2,1), every combination of startup exits inside prepare_workers "
+         "(depth 3,2,1) and 50000 random long histories.",
     trusted_base=["model: coq/theories/ProcMan.v (hand-written transcription of taskiq/cli/worker/process_manager.py)",
                   "process / queue / os.kill / signal / sleep fakes in harness/drivers/pm_driver.py (multiprocessing.Process "
                   "life cycle new/live/zombie/reaped, POSIX kill on a reaped pid, synchronous FIFO queue with multiprocessing.Queue's "
@@ -46,7 +49,9 @@ META = dict(
     assumptions=["join() returns (the worker dies on SIGTERM)",
                  "queue.put() is visible to the next empty()/get() (no feeder-thread latency)",
                  "asynchronous events (signals, watchdog callback, worker deaths) happen at the fakes' delivery points: "
-                 "inside sleep(), inside action_queue.empty(), inside is_alive() called by start()"],
+                 "inside sleep(), inside action_queue.empty(), inside is_alive() called by start(), and inside the startup "
+                 "windows of prepare_workers / ReloadOneAction.handle (Process.start(), the is_alive() and the Event.wait() of "
+                 "_wait_for_worker_startup)"],
 )
 
 
